@@ -301,7 +301,7 @@ def corr_css_concrete(check, ctx, c, rng):
         e = rng.choice(MODEL_NAMES[:10])
         try:
             data = text.encode(e) if rng.random() < 0.8 else codecs.getencoder('css')(text, encoding=e)[0]
-        except (UnicodeEncodeError, LookupError):
+        except (UnicodeEncodeError, LookupError, ValueError):
             continue
         if rng.random() < 0.12:
             data = damage(rng, data)
@@ -377,7 +377,7 @@ def corr_css_concrete(check, ctx, c, rng):
                 one = codecs.getencoder('css')(text, encoding=given)[0]
             except UnicodeError:
                 one = None
-            except LookupError:
+            except (LookupError, ValueError):
                 ctx.count('cenc:encoding name outside the model (skipped)')
                 continue
             e = c.IncrementalEncoder(encoding=given)
@@ -388,7 +388,7 @@ def corr_css_concrete(check, ctx, c, rng):
                 fin = e.encode('', True)
             except UnicodeError:
                 raised = True
-            except LookupError:
+            except (LookupError, ValueError):
                 ctx.count('cenc:encoding name outside the model (skipped)')
                 continue
             used = e.encoding
@@ -408,3 +408,165 @@ def corr_css_concrete(check, ctx, c, rng):
             got = '%s | %s | %s' % (' '.join(encb(o) if o else '-' for o in outs), encb(fin) if fin else '-', encb(one))
             if m is not None and norm(m) != norm(got):
                 ctx.disagree('IncrementalEncoder over CPython inner codecs', w, got, m)
+
+
+# ---------------------------------------------------------------------------------------------------
+# the stream classes: model `rstep cpyInner` / `wstep cpyInnerEnc` (Model/CodecStream.lean)
+class RecStream:
+    """a byte stream that hands out the given (non-empty) parts one per read() and records how many characters
+    the reader had decoded before each read (= the per-turn `newchars` of codecs.StreamReader.read)"""
+    def __init__(self, parts):
+        self.parts = [p for p in parts if p]
+        self.reader = None
+        self.marks = []
+
+    def read(self, size=-1):
+        self.marks.append(len(self.reader.charbuffer))
+        return self.parts.pop(0) if self.parts else b''
+
+    def close(self):
+        pass
+
+
+def corr_css_stream(check, ctx, c, rng):
+    import io
+    lines, cases = [], []
+    for _ in range(ctx.n(600, 14000)):
+        text = css_text(rng)
+        e = rng.choice(MODEL_NAMES[:10])
+        try:
+            data = text.encode(e) if rng.random() < 0.7 else codecs.getencoder('css')(text, encoding=e)[0]
+        except (UnicodeEncodeError, LookupError, ValueError):
+            continue
+        if rng.random() < 0.1:
+            data = damage(rng, data)
+        given = rng.choice([None, None, e, e, rng.choice(MODEL_NAMES)])
+        force = rng.random() < 0.6
+        n = len(data)
+        cutsets = [(), tuple(sorted(set(rng.randint(1, max(1, n - 1)) for _ in range(rng.randint(1, 5)))))]
+        if n > 1:
+            cutsets.append((rng.randint(1, min(n - 1, 14)),))
+            cutsets.append(tuple(range(1, n)))
+        for cuts in cutsets:
+            parts = [p for p in cut(data, cuts) if p]
+            lines.append('sread %s %d %s' % ('none' if given is None else enc(given), force,
+                                             ' '.join(encb(p) for p in parts)))
+            cases.append(('sread', parts, given, force, text))
+    for _ in range(ctx.n(400, 10000)):
+        text = css_text(rng)
+        given = rng.choice([None, None] + MODEL_NAMES)
+        n = len(text)
+        cutsets = [(), tuple(sorted(set(rng.randint(0, n) for _ in range(rng.randint(1, 5)))))]
+        if n:
+            cutsets.append(tuple(range(1, n)))
+        for cuts in cutsets:
+            parts = cut(text, cuts)
+            lines.append('swrite %s %s' % ('none' if given is None else enc(given), ' '.join(enc(p) for p in parts)))
+            cases.append(('swrite', parts, given, None, text))
+    out = ctx.driver(lines) if ctx.model_ok else [None] * len(lines)
+    known_names = [norm_name(x) for x in MODEL_NAMES]
+    for (kind, parts, given, force, text), m in zip(cases, out):
+        if kind == 'sread':
+            data = b''.join(parts)
+            w = {'call': 'StreamReader', 'chunks': [p.hex() for p in parts], 'encoding': given, 'force': force}
+            try:
+                name = used_encoding(c, data, given, force)
+                codecs.lookup(name)
+                if norm_name(name) not in known_names:
+                    raise LookupError(name)
+            except (LookupError, ValueError, TypeError):
+                ctx.count('sread:encoding name outside the model (skipped)')
+                continue
+            try:
+                one = codecs.getdecoder('css')(data, encoding=given, force=force)[0]
+            except UnicodeError:
+                one = None
+            st = RecStream(parts)
+            rd = codecs.getreader('css')(st, encoding=given, force=force)
+            st.reader = rd
+            try:
+                got = rd.read()
+            except UnicodeError:
+                got = None
+            waiting = rd.streamreader is None
+            ctx.case(key=('sread', tuple(parts), given, force), nontrivial=len(parts) > 1,
+                     kind='css-sread:' + ('W' if waiting else 'R') + (':raises' if got is None else ''))
+            if got is None:
+                # strict inner decoder met ill-formed data: one-shot must raise too (unless the finding's region)
+                if one is not None and not outside_agree(name, data):
+                    ctx.violate('stream reader = one-shot for every chunking', w,
+                                {'stream': 'raises', 'one_shot': one, 'encoding_used': name})
+                continue
+            # oracle (T7.7): always a prefix of one-shot; all of it when the reader started and nothing is pending
+            if one is not None and not one.startswith(got):
+                ctx.violate('stream reader hands out a prefix of the one-shot result for every chunking', w,
+                            {'stream': got, 'one_shot': one, 'encoding_used': name})
+                continue
+            if one is not None and not waiting and not rd.bytebuffer and got != one:
+                ctx.violate('stream reader = one-shot once it has started and nothing is pending', w,
+                            {'stream': got, 'one_shot': one, 'encoding_used': name})
+                continue
+            if outside_agree(name, data):
+                continue
+            marks = st.marks + [len(got)]
+            outs = [got[a:b] for a, b in zip(marks, marks[1:])]
+            k = len(parts)
+            per, tail = outs[:k], ''.join(outs[k:])
+            line = '%s | %s' % (' '.join(enc(o) for o in per) if per else '', 'W' if waiting else 'R')
+            if tail:
+                ctx.violate('stream reader: nothing new is decoded at end of stream', w, {'tail': tail})
+                continue
+            if m is not None:
+                mm = m.rsplit('|', 1)[0]
+                if norm(mm) != norm(line):
+                    ctx.disagree('StreamReader over CPython inner codecs', w, line, mm)
+        else:
+            w = {'call': 'StreamWriter', 'chunks': parts, 'encoding': given}
+            try:
+                one = codecs.getencoder('css')(text, encoding=given)[0]
+            except UnicodeError:
+                one = None
+            except (LookupError, ValueError):
+                ctx.count('swrite:encoding name outside the model (skipped)')
+                continue
+            bio = io.BytesIO()
+            outs, raised = [], False
+            try:
+                wr = codecs.getwriter('css')(bio, encoding=given)
+                for p in parts:
+                    before = len(bio.getvalue())
+                    wr.write(p)
+                    outs.append(bio.getvalue()[before:])
+            except UnicodeError:
+                raised = True
+            except (LookupError, ValueError):
+                ctx.count('swrite:encoding name outside the model (skipped)')
+                continue
+            used = wr.encoding
+            if used is not None and norm_name(used) not in known_names:
+                ctx.count('swrite:encoding name outside the model (skipped)')
+                continue
+            waiting = wr.streamwriter is None
+            ctx.case(key=('swrite', tuple(parts), given), nontrivial=len(parts) > 1,
+                     kind='css-swrite:' + ('W' if waiting else 'E') + (':raises' if raised else ''))
+            if raised:
+                if one is not None:
+                    ctx.violate('stream writer = one-shot for every chunking', w,
+                                {'stream': 'raises', 'one_shot': one.hex()})
+                continue
+            total = b''.join(outs)
+            if one is not None and not one.startswith(total):
+                ctx.violate('stream writer writes a prefix of the one-shot result for every chunking', w,
+                            {'stream': total.hex(), 'one_shot': one.hex()})
+                continue
+            if one is not None and not waiting and text and total != one:
+                ctx.violate('stream writer = one-shot once it has started', w,
+                            {'stream': total.hex(), 'one_shot': one.hex()})
+                continue
+            if one is None:
+                continue
+            line = '%s | %s' % (' '.join(encb(o) if o else '-' for o in outs), 'W' if waiting else 'E')
+            if m is not None:
+                mm = m.rsplit('|', 1)[0]
+                if norm(mm) != norm(line):
+                    ctx.disagree('StreamWriter over CPython inner codecs', w, line, mm)
